@@ -991,16 +991,19 @@ CORE_REG_CLASS = {1: "IA", 2: "PD", 3: "UA"}
 
 class Ctx:
     """what the cause oracle needs to know about the current state"""
-    def __init__(self, P, paths, meta, byname, ack, owners, down, ticked):
+    def __init__(self, P, paths, meta, byname, ack, owners, down, ticked, fuzzy=False):
         self.P, self.paths, self.meta, self.byname, self.ack = P, paths, meta, byname, ack
         self.owners, self.down, self.ticked = owners, down, ticked
+        # after a registration request that failed half-way the monitor does not know every signal
+        self.fuzzy = fuzzy
+        self.unknown = {"NF", "?"} if fuzzy else {"NF"}
 
     def expired(self, p):
         return 0 <= p < len(self.P.scopes) and self.P.scopes[p][1] and self.ticked
 
     def read_causes(self, p, i):
         if i not in self.paths:
-            return {"NF"}
+            return set(self.unknown)
         if self.expired(p):
             return {"UA"}
         c = self.P.can(p, "read", self.paths[i], self.ticked)
@@ -1025,7 +1028,7 @@ class Ctx:
     def update_causes(self, p, u):
         i = u["id"]
         if i not in self.paths:
-            return {"NF"}
+            return set(self.unknown)
         out = set()
         if u["flags"] & 8:
             out.add("PD")
@@ -1045,7 +1048,7 @@ class Ctx:
 
     def actuate_causes(self, p, i, v):
         if i not in self.paths:
-            return {"NF"}
+            return set(self.unknown)
         out = set()
         if self.expired(p):
             out.add("UA")
@@ -1077,9 +1080,9 @@ class Ctx:
             if len(name.encode()) > 1000:
                 return {"IA", "NF"}, None, j
             sid = self.byname.get(name)
-            return (set(), sid, j) if sid is not None else ({"NF"}, None, j)
+            return (set(), sid, j) if sid is not None else (set(self.unknown), None, j)
         sid = l[i + 1]
-        return (set(), sid, i + 2) if sid in self.paths else ({"NF"}, None, i + 2)
+        return (set(), sid, i + 2) if sid in self.paths else (set(self.unknown), None, i + 2)
 
 
 def _judge(name, cls, causes, what):
@@ -1214,6 +1217,7 @@ def monitor(lines, out, props):
     pend = None      # (op index, parsed op, output) of the last mutating op, judged at the next DUMP
     _down = set()
     byname = {}
+    resynced = False
     expanded = []
     for k, (d, o) in enumerate(al, 1):
         expanded.append((k, d, o))
@@ -1224,7 +1228,7 @@ def monitor(lines, out, props):
       if "raw" in d0:
         fails += meta_check(d0, o0, meta)
       if o0 and o0[0] not in ([-1], [-66]) and d0["name"] not in ("DUMP", "RECV", "PERM"):
-        fails += c19_check(d0, o0, Ctx(P, paths, meta, byname, ack, owners, _down, ticked))
+        fails += c19_check(d0, o0, Ctx(P, paths, meta, byname, ack, owners, _down, ticked, fuzzy=resynced))
       for (d, o) in normalize(d0, o0, byname, meta):
           name = d["name"]
           if name == "RESYNC":
